@@ -90,7 +90,9 @@ Inductive case :=
    result, and what executeQuery returned *)
 | CSpec (hosts : list host) (pd : pol_desc) (spk : Z) (a0 cons0 : Z)
         (ls1 : list label) (ret : mres) (ls2 : list label)     (* steps seen before / after executeQuery returned ret *)
-        (runs : list (list event * option result)) (att : Z).
+        (runs : list (list event * option result)) (att : Z)
+(* getExponentialTime(min, max, attempts) returned obs (jitter is random: bounds, with 1 ns of float slack) *)
+| CNap (mn mx a obs : Z).
 
 Definition seq_fuel : nat := 4000.
 
@@ -156,6 +158,7 @@ Definition check (c : case) : bool :=
           end
       | MSequential => false
       end
+  | CNap mn mx a obs => (1 <=? a) && (nap_lo mn mx a - 1 <=? obs) && (obs <=? nap_hi mn mx a + 1)
   end.
 
 Definition run (cs : list case) : list N := mismatches check cs.
